@@ -23,12 +23,19 @@ META = {
             "ranges per location are pairwise disjoint, off the lock slot and in range; the per-slot override allocator "
             "accepts exactly complete/disjoint/in-range files and honours them; distinct access paths of one variable "
             "address disjoint words; HashMap entries are disjoint under stated keccak hypotheses. The model is tied on "
-            "every run to the real compiler's layout output (exact) and to raw storage diffs of deployed contracts.",
+            "every run to the real compiler's layout output (exact) and to raw storage diffs of deployed contracts. "
+            "Both code generators: the address code templates (legacy get_element_ptr paths; venom whole accesses = HashMap "
+            "levels with word / Bytes / String keys followed by array / DynArray / struct steps) are proved to address exactly "
+            "the slot the layout assigns (inside the reported range or the entry hashed from the reported slot), distinct "
+            "accesses being disjoint, and are matched syntactically against the real generators on every run.",
     "level_note": "Trusted: Coq kernel + vm_compute, py2coq (+MethodTranslator subclass) for allocate_slot/ceil32/"
                   "storage_size_in_words, hand model of the _allocate_layout_r / override recursion and of type sizes / "
                   "element addressing (validated by exact-output differential + storage diff, not proved about the Python). "
-                  "Assumed: keccak spread/avoidance hypotheses (premises of mapping_slots_distinct).",
-    "technique": "Coq proof over py2coq-translated allocator + hand layout model, exact-output differential, EVM storage diff",
+                  "Assumed: keccak spread/avoidance hypotheses (premises of mapping_slots_distinct; for the venom whole-access "
+                  "theorems additionally: hash values are words and do not wrap, byte-string keys lie outside the freshly "
+                  "allocated 64-byte key buffers, leaves (key / index values) are parameters of the observed lowering).",
+    "technique": "Coq proof over py2coq-translated allocator + hand layout model, exact-output differential, EVM storage diff, "
+                 "syntactic template match of the emitted address code (legacy + venom)",
 }
 
 COQ_FILES = ["C10/GenAlloc.v", "C10/Layout.v", "C10/Alloc.v", "C10/Paths.v", "C10/AllocProofs.v",
